@@ -128,6 +128,7 @@ def deliver (y : Sys) (sw dw : List Wire) : Sys := deliverRounds 8 unbounded unb
 inductive Op
   | world (t : Ty) (res : List Res)
   | sub (t : Ty) (names : List String)
+  | subx (t : Ty) (names : List String) (keepNonce legacy : Bool)
   | pushall
   | reconnect
   | pushcut (k : Nat)
@@ -136,7 +137,9 @@ def changedNames (old new : List Res) : List String :=
   (new.filter (fun r => get old r.1 != some r.2)).map (·.1) ++
   (old.filter (fun r => (get new r.1).isNone)).map (·.1)
 
-def stepSub (y : Sys) (t : Ty) (rawNames : List String) : Sys :=
+/-- `keepNonce`: the delta client presents the nonce it retained from the previous stream in the first request
+    of a stream; `legacy`: it makes a wildcard subscription the legacy way (no `resource_names_subscribe`). -/
+def stepSub (y : Sys) (t : Ty) (rawNames : List String) (keepNonce : Bool := false) (legacy : Bool := false) : Sys :=
   let nm := sortNames rawNames
   -- SotW client
   let sc := y.sc t
@@ -164,12 +167,13 @@ def stepSub (y : Sys) (t : Ty) (rawNames : List String) : Sys :=
         -- nothing wanted of this type any more
         ({ y1 with dc := y1.dc.set t { dc with held := [] } }, [])
       else
-        let sub := if nm.isEmpty then ["*"] else nm
+        let sub := if nm.isEmpty && !legacy then ["*"] else nm
         -- a named resource the client no longer wants is dropped before it reports what it retains
         let heldD := if t.wildcard then dc.held else dc.held.filter (fun x => nm.contains x.1)
         let y0 := { y1 with dc := y1.dc.set t { dc with held := heldD, subscribed := true, sub := nm } }
         -- first request on a stream: report everything retained (initial_resource_versions)
-        match processDelta y0.genReq y0.dsrv { ty := t, sub := sub, unsub := [], init := sortNames (names heldD), nonce := "", err := none } with
+        match processDelta y0.genReq y0.dsrv { ty := t, sub := sub, unsub := [], init := sortNames (names heldD),
+                                               nonce := if keepNonce then dc.nonce else "", err := none } with
         | some (v, ws) => ({ y0 with dsrv := v }, ws)
         | none => (y0, [])
     else
@@ -194,6 +198,7 @@ def step (y : Sys) : Op → Sys
              world := fun t' => if t' = t && t = .eds then res else y.world t',
              changed := fun t' => if t' = t then y.changed t ++ ch else y.changed t' }
   | .sub t names => stepSub y t names
+  | .subx t names keepNonce legacy => stepSub y t names keepNonce legacy
   | .pushcut k =>
     -- a push whose delivery is cut after `k` responses per client, then both streams break
     let y := { y with world := y.pending }
